@@ -663,3 +663,41 @@ Qed.
 Theorem read_io rsv bbs m C : in_subset bbs m = true → (list_to_set (module_ids m) : gset string) ⊆ rsv → read rsv bbs m = Ok C →
   inputs (c_g C) = list_to_set (decl_inputs m) ∧ outputs (c_g C) = list_to_set (decl_outputs m).
 Proof. intros Hs. apply read_io_items. by apply in_subset_items. Qed.
+
+(* ------------------------------------------------------------------ one primitive instance over identifiers, exactly *)
+Lemma filter_all {A} (P : A → Prop) `{∀ x, Decision (P x)} (l : list A) : Forall P l → filter P l = l.
+Proof. induction 1 as [|x l Hx _ IH]; [done|]. rewrite filter_cons_True by done. by rewrite IH. Qed.
+Lemma filter_none {A} (P : A → Prop) `{∀ x, Decision (P x)} (l : list A) : Forall (λ x, ¬ P x) l → filter P l = [].
+Proof. induction 1 as [|x l Hx _ IH]; [done|]. by rewrite filter_cons_False. Qed.
+Lemma dedup_nodup l : NoDup l → dedup_first l = l.
+Proof.
+  induction 1 as [|x l Hx Hnd IH]; [done|]. simpl. rewrite IH. f_equal. apply filter_all. apply Forall_forall. intros y Hy ->. done.
+Qed.
+Lemma count_nodup l f : NoDup l → f ∈ l → count_occ_s l f = 1.
+Proof.
+  unfold count_occ_s. induction 1 as [|x l Hx Hnd IH]; [intros H; by apply elem_of_nil in H|].
+  intros [->|Hin]%elem_of_cons.
+  - rewrite filter_cons_True by done. simpl. rewrite filter_none; [done|]. apply Forall_forall. intros y Hy ->. done.
+  - rewrite filter_cons_False; [by apply IH|]. intros ->. done.
+Qed.
+Lemma parity_nodup l : NoDup l → parity_ops l = l.
+Proof.
+  intros Hnd. unfold parity_ops. rewrite dedup_nodup by done. apply filter_all, Forall_forall. intros f Hf.
+  by rewrite count_nodup.
+Qed.
+(* reading `<type> g(n, f1, .., fk)` with distinct operands: n becomes a node of that type over exactly these operands (plus
+   whatever fan-in it had: none for a new node or a placeholder), operands that are no nodes yet become placeholder
+   buffers, every other node is untouched *)
+Theorem prim_instance_exact k t g nm n fi g' : prim_instance k t g (nm, CPos (n :: fi)) = Ok g' → NoDup fi → fi ≠ [] →
+  g' !! n = Some (mk_node t false (fanin g n ∪ list_to_set fi)) ∧
+  ∀ x, x ≠ n → g' !! x = g !! x ∨ (g !! x = None ∧ x ∈ fi ∧ g' !! x = Some (mk_node Buf false ∅)).
+Proof.
+  unfold prim_instance. simpl. intros H Hnd Hne. rewrite parity_nodup in H by done.
+  assert (Hx0 : ∃ t' fi', (t', fi') = (t, fi) ∧ (r ← add_node (k_rsv k) g n t' fi' false; Ok r.1) = Ok g').
+  { destruct fi as [|f fi']; [done|]. destruct (bool_decide (t = Xor) || bool_decide (t = Xnor)); simpl in H; eauto. }
+  destruct Hx0 as (t' & fi' & [= -> ->] & H0). clear H. rename H0 into H.
+  apply mbind_ok in H as ([g1 nm1] & H1 & H2). injection H2 as <-. simpl.
+  unfold add_node, lift in H1. destruct (add_g g n t fi [] rd_flags) as [[g2 o] nm2] eqn:Ha. destruct o; [|discriminate].
+  injection H1 as <- <-. apply add_g_gen in Ha as (_ & Hl & Hx); [|done]. split; [done|].
+  intros x Hxn. destruct (Hx x Hxn) as [?|(? & ? & _ & ?)]; auto.
+Qed.
